@@ -43,18 +43,21 @@ _EMPLACE = _compiles(
     "void probe() { phosg::KDTree<phosg::Vector2<int64_t>, int64_t> t; int64_t v = 0; t.emplace(phosg::Vector2<int64_t>(0, 0), v); }\n")
 
 CFG = P(
-    harness=["harness/C13.cc", "harness/C13_ext.cc", "harness/C13_seq.cc", "harness/C13_seq2.cc", "harness/C13_vals.cc", "harness/C13_misc.cc",
+    # the chain TUs come first: sections run in registration (= link) order and the thorough tier's few 10^5-entry chains built through
+    # insert() take minutes each - started early they overlap with everything else
+    harness=["harness/C13_chain.cc", "harness/C13_chain2.cc", "harness/C13_chain3.cc", "harness/C13.cc", "harness/C13_ext.cc", "harness/C13_seq.cc", "harness/C13_seq2.cc", "harness/C13_vals.cc", "harness/C13_misc.cc",
              "harness/C13_pairs1.cc", "harness/C13_pairs2.cc", "harness/C13_pairs3.cc", "harness/C13_pairs4.cc", "harness/C13_pairs5.cc", "harness/C13_pairs6.cc", "harness/C13_pairs7.cc"],
-    harness_deps=["harness/bfs.hh", "harness/C13_explorer.hh", "harness/C13_gen.hh", "harness/C13_seq.hh", "harness/C13_pairs.hh"],
+    harness_deps=["harness/bfs.hh", "harness/C13_explorer.hh", "harness/C13_gen.hh", "harness/C13_seq.hh", "harness/C13_pairs.hh", "harness/C13_chain.hh"],
     srcs=[],
     harness_cxxflags=["-fno-access-control"] + (["-DC13_HAVE_EMPLACE"] if _EMPLACE else []),
     # round 2: ~25 s / ~10 min of work on an idle 16-core box; the machine is usually shared (measured 250-530 s / 5200 s at load ~100)
-    deadline={"quick": 1200, "thorough": 9000},
+    # round 5 adds ~250 CPU-s (quick) of chain / bushy life cycles; at load 150-260 (six agents) a quick run needed 1200 s of wall time
+    deadline={"quick": 3600, "thorough": 10800},
     # the search does ~10^8 small allocations: short allocation stacks and a small quarantine keep ASan's
     # allocator out of the profile (detection is unaffected: every misuse here is immediate)
     asan_options="malloc_context_size=3:quarantine_size_mb=16:thread_local_quarantine_size_kb=64",
     rule="a transition of the E-BFS sections (one operation applied to one explored structure) is non-trivial when the structure it starts from holds at least two entries that share a coordinate on some axis "
-         "(ties / duplicates: the cases where the split rule and deletion matter); a case of the enumerating sections (seq_*, pairs_*, iter, ctx, emplace) is non-trivial when the tree under test holds at least two entries at some point of the case",
+         "(ties / duplicates: the cases where the split rule and deletion matter); a case of the enumerating sections (seq_*, pairs_*, iter, ctx, emplace, chain, chain_linked, bushy) is non-trivial when the tree under test holds at least two entries at some point of the case",
     bounds={
         "quick": "E-BFS fixpoints: every structure reachable with <= 5 (S1: 3x3 grid, value 0), <= 3 (S2: values {0,1}), <= 3 (S3: 2x2x2 Vector3 cube), <= 2 (S4: as S2 with all observers before and after every operation on the same object), "
                  "<= 4 (S5: S1's grid on {INT64_MIN,-1,INT64_MAX-1}), <= 3 (S6: S3's cube on {INT64_MIN,INT64_MAX-1}) live entries by any interleaving of insert, emplace, erase and erase_advance; per structure all grid points, all 256 (3-D: 729) boxes, "
@@ -62,13 +65,22 @@ CFG = P(
                  "traversals) with the observers at the end (all points; the boxes with lo <= hi per axis plus one inverted interval per axis), and every sequence of 4 (3) operations with all observers and all boxes after every step, for 8 worlds (Vector2<int64_t> grid; one point with 3 values; Vector3; Vector4; Vector2<double>; 1-D; 40-byte string values; "
                  "instance-counting values).  Boundary coordinates: every ordered pair (a,b) of {2^k-1, 2^k, 2^k+1 (all k), negatives, 0, limits} (float/double: 36 values incl. +-0, denormal, 2^p+-, infinity) as the coordinates of a 4..6-point tree "
                  "in 2 insertion orders (int32, int64, uint64, 1-D int64: one order per pair, forward / reverse alternating) for Vector2 over int8..int64/uint8..uint64/float/double, 1-D, Vector3 and Vector4 (reduced k sets), all probes and boxes over {a,b}.  Iterator members on every tree of <= 4 inserts (+1 erase) from 5 entries; "
-                 "7 calling contexts x every tree of <= 3 inserts; two live trees; 6 insertion forms (emplace argument shapes) in every sequence of <= 3 calls",
+                 "7 calling contexts x every tree of <= 3 inserts; two live trees; 6 insertion forms (emplace argument shapes) in every sequence of <= 3 calls.  "
+                 "SHAPE extremes (round 5), each case = the complete life cycle of one tree in a forked child (inserts, size, iteration in 2 styles, at/exists at the ends / quarters / middle of the insertion order and at absent points (n <= 1000: every entry), "
+                 "within/exists on 13 boxes covering nothing / one entry / halves / a slab / everything / inverted, erase of absent entries, of the root, the deepest and a middle entry, erase_advance at the first / middle / last visit, an ending, destruction, live-value count): "
+                 "chain = 9 insertion orders that degenerate the tree into a chain (increasing, decreasing, all-equal, zig-zag, increasing / decreasing on one axis and tied on the others, tied on one axis, anti-diagonal, every point twice) x 100, 1000, 10^4 entries x 9 coordinate worlds "
+                 "(Vector2 over int64/double/float/int32/uint64, Vector3 over int64/double, Vector4<int64_t>, 1-D) x {main thread, thread with a 128 KiB stack, thread with a 64 KiB stack} (all three for Vector2/Vector3<int64_t> and 1-D, 64 KiB for the other six) x endings "
+                 "{destroy full, erase every second entry, erase until empty + refill, erase_advance until empty} (n <= 1000) / {destroy full, 32 spread erases} (10^4); chain_linked = the same 9 families at 10^5 entries, the chain linked node by node by the harness "
+                 "(verified equal to insert()'s structure at 7 / 100 / 1000 entries for every family and world), 4 worlds x 3 stack kinds; bushy = balanced median-first order of an s^D grid, 100 .. 10^5 entries, 9 worlds (10^5: three), all four endings",
         "thorough": "E-BFS fixpoints with <= 7 (S1), <= 5 (S2), <= 5 (S3), <= 3 (S4), <= 5 (S5), <= 4 (S6) live entries; all 2^n erase-while-iterating subsets for n <= 6 (n = 7: none / each single / each pair / all).  Sequences: <= 6 (2x2 grid, 1-D) / <= 5 operations with "
                     "observers at the end, 5 (4) with observers after every step.  Boundary pairs in 4 insertion orders (8-bit: every value of the type, 2 orders; Vector3<int64_t>, Vector4: 2 orders), all boxes in every sweep, Vector3<int64_t> over every k, Vector4 over 13 exponents.  Iterator members on trees of <= 5 inserts, contexts on trees of <= 4 inserts, insertion forms in sequences of <= 4 calls",
     },
     explanation="E-BFS: states are operation histories replayed on a fresh real KDTree, identified by a white-box pre-order serialisation of the real nodes; the search closes over every structure reachable under the live-entry bound; the reference is a plain multiset with linear scans.  "
                 "E-ENUM (round 2): every operation sequence of bounded length on one object (no merging, so state that is not part of the node structure - caches, recycled nodes, memoised answers - is exercised), every ordered pair of boundary coordinates for every coordinate type and dimension, "
-                "every iterator member at every position, every calling context; the reference is a plain list with linear scans written against the named members x, y, z, w",
+                "every iterator member at every position, every calling context; the reference is a plain list with linear scans written against the named members x, y, z, w.  "
+                "Round 5: SHAPE extremes - every chain-producing insertion-order family x a size ladder x coordinate world x stack kind, the complete life cycle of the tree executed in a forked child on the main thread or on a thread with a 128 KiB / 64 KiB stack "
+                "(a 10^4-level recursion needs 16 bytes per level = 160 KB: any per-level recursion or O(n) stack allocation in a named operation dies there and is reported as <operation>:crash); the reference is a plain list in an integer coordinate space "
+                "mapped to the world's coordinate type by an exact strictly increasing map; leaks and double destruction are counted through an instance-counting value type",
     assumptions=[
         "E-BFS scopes: points come from a 3x3 integer grid (Vector2<int64_t>) or the 2x2x2 cube (Vector3<int64_t>), plain or mapped monotonically onto {INT64_MIN, -1, INT64_MAX-1}; values from {0} or {0,1}; the statement's random 300-operation histories on grids of side up to 12 are replaced by the exhaustive bounds above",
         "the closures are bounded by the number of live entries, not by history length; the sequence sections are bounded by history length (<= 6) on 4-entry alphabets",
@@ -84,12 +96,20 @@ CFG = P(
         "two threads never use a tree at the same time (hand-over through promise/future); concurrent use is outside the statement",
         "KDTree::emplace was ill-formed on the tree this suite started from: it is executed only when the tree under test makes it compile (feature probe at configuration time)",
         "a crash of ~KDTree on an empty tree is established once per process (and per instantiation) in a forked child and then reported for every later empty destruction without re-executing it",
+        "SHAPE sections (chain, chain_linked, bushy): 'safe' includes 'does not exhaust the stack of the calling thread': every operation the statement names (insert, erase, erase_advance, iteration, at, exists, within, exists(low,high), size, destruction) must work on a tree of any shape "
+        "on a thread whose stack is 64 KiB (the unchanged library needs a constant 24 KiB there including thread start-up and the sanitizer, measured per case and reported as a histogram); depth() is not named by the statement and is recursive in the library (TODO in KDTree.hh): "
+        "it is not called by these sections; chain_depth_info executes it for information only (it dies on a 64 KiB stack from 10^4 levels and on the main thread at 10^6) and never reports a violation",
+        "chain_linked: a chain of 10^5 / 10^6 entries costs n^2/2 node visits through insert() (minutes / hours), so the harness links it node by node (white box) - valid because for these families every new entry lands below the previously inserted one; the per-axis path interval is checked "
+        "for every node and the result is compared node by node with the tree insert() builds at 7, 100 and 1000 entries for every family and world in every run; everything after the construction goes through the public interface",
+        "SHAPE sections: observers at sampled positions for n > 1000 (entries 0, 1, n/4, n/2-1, n/2, 3n/4, n-2, n-1 of the insertion order, five absent points, 13 boxes) instead of every grid point and box; emptying a chain of 10^4 or more entries is not executed "
+        "(each delete_node step below an after_or_equal chain allocates a queue: quadratic with a large constant in the library itself)",
     ],
     engine="E-BFS + E-ENUM",
     technique="explicit-state breadth-first search over real KDTree objects (histories replayed on fresh objects, white-box canonical form, fixpoint under a live-entry bound) plus exhaustive enumeration of operation sequences on one object, boundary-coordinate pairs for every "
-              "coordinate type, iterator members, calling contexts and emplace forms; brute-force multiset oracle, structural invariant and destruction in every state under ASan/LSan",
+              "coordinate type, iterator members, calling contexts and emplace forms, and of degenerate (chain) and wide tree shapes up to 10^5 (10^6) entries on small thread stacks; brute-force multiset oracle, structural invariant and destruction in every state under ASan/LSan",
     level_text="Every KD-tree structure reachable with at most N live entries from the 3x3 grid (and the 2x2x2 cube), also with the grid at the int64_t limits, by any interleaving of insert, emplace, erase and erase-while-iterating is built on the real code and, in each one, size, iteration, "
                "at/exists for every grid point, within/exists for every box, erase results, the ordering invariant and destruction are compared with a linear-scan multiset; in addition every operation sequence of bounded length on a single object, every ordered pair of boundary coordinates "
-               "of every integer and floating coordinate type in 1 to 4 dimensions, every iterator member and seven calling contexts are enumerated; inside those bounds the verdict is exhaustive.",
-    level_note="Trusted: the harness's multiset/list model and box membership test; the canonical form omits dim/parent, which is sound because both are verified in every state. Bounded by live entries (7/5/5 thorough), history length (6), small grids and two coordinate values per boundary case.",
+               "of every integer and floating coordinate type in 1 to 4 dimensions, every iterator member and seven calling contexts are enumerated; and the complete life cycle of a tree is run for every chain-producing insertion order and a balanced one at 10^2 .. 10^5 (thorough 10^6) entries "
+               "on the main thread and on 128 KiB / 64 KiB thread stacks; inside those bounds the verdict is exhaustive.",
+    level_note="Trusted: the harness's multiset/list model and box membership test; the canonical form omits dim/parent, which is sound because both are verified in every state. Bounded by live entries (7/5/5 thorough), history length (6), small grids and two coordinate values per boundary case; big trees only in ten fixed shapes (nine chains, one balanced grid) with observers at sampled positions.",
 )
